@@ -42,6 +42,24 @@ CHECKS = {
          "values outside the 16-bit field must be rejected with 4144/4145 and no font."),
    note=TB + "Hypothesis of the theorem (distinct lines) is necessary: the excluded point is the recorded known finding. Not covered yet: m-unit scaling, glyph metrics/point()/box() in values, directionality/mirroring defaults (ICU), >255 attributes.",
    design="4/C05"),
+ "C09": dict(
+   technique="Lean 4 model of the driver's stage machine with theorems over all scenarios + strace trace correspondence of the real binary for every failing stage / environment fault",
+   text=("Proof: over the Lean model Grc.MainSM.run (stage failure flags -> exit status, error count, ordered file-system operations): exit_zero_iff_no_error, exit_le_one, success_font_complete "
+         "(exit 0 implies the destination was created by this run, written completely and not removed), failure_leaves_no_font (on failure the destination is never touched or is removed again), "
+         "no_output_before_checks, errors_reach_errfile — for every scenario. Tie: 36 constructed scenarios (each stage failing: arguments, GDL missing, encodings, missing/failing preprocessor, "
+         "preprocessor errors, syntax and semantic errors, bad font, bad -v/-n, unwritable destination, name-table overflow during output, unwritable error file; -w/-wall/-d/-D/-e) are run on the "
+         "real binary under strace, with and without a pre-existing file at the output path; exit status, operation sequence, error-file content and the state of the output path must equal the "
+         "model's prediction, successful outputs must pass the C08 container check, and diagnostic-only options must give byte-identical fonts."),
+   note=TB + "The scenario->flag mapping is by construction of inputs. Kernel behaviour is observed, not modelled. An unwritable error file is itself an error (106) while the font stays: excluded by hypothesis from failure_leaves_no_font.",
+   design="4/C09", category="proof"),
+ "C19": dict(
+   technique="Lean 4 model theorems (temporary file always removed, debug files only on request, destination untouched before checks) + strace/snapshot correspondence over all scenarios and path spellings",
+   text=("Proof: Grc.MainSM.tmp_removed, debug_only_if_requested, no_output_before_checks, failure_leaves_no_font over the stage-machine model. Tie: every scenario (success, each failure stage, five spellings "
+         "of an output path that aliases the input font: same string, ./, absolute, symbolic link, hard link) runs under strace; every write-open/unlink/rename must fall in the allowed set "
+         "{output font, error file, requested debug files, temporary file}, /tmp and the working directory are snapshotted before/after, inputs are hashed, and a write fault in the middle of the "
+         "font (RLIMIT_FSIZE) must leave nothing partial."),
+   note=TB + "strace is trusted to show all file-system calls of the compiler and its preprocessor child; concurrency is C13's subject.",
+   design="4/C19"),
  "C14": dict(
    technique="Lean 4 theorem (skip-bit soundness for all glyph strings and positions) + its hypothesis evaluated on the decoded *skipPasses* attributes of real output + differential shaping of default vs -p builds with libgraphite2",
    text=("Proof: Grc.PB.skip_sound — if every effective rule of a pass has an input item all of whose class members have the pass's skip bit cleared, then on every glyph string whose glyphs all "
